@@ -320,7 +320,7 @@ func c16Cache(c *Ctx) {
 						fromServer = true
 					}
 				}
-				c.Check(g1 && g2 && len(passErr) > 0 && len(passMsg) > 0 && fromServer, "R3", "cache.Add@LockFile", p.InstrPos(ci), "the cache records exactly the lock the server granted, after a successful answer", "the own-locks cache is written although the server did not (yet) confirm the lock, or with something other than the server's lock: "+path)
+				c.Check(g1 && g2 && nonVacuous(passErr) && nonVacuous(passMsg) && fromServer, "R3", "cache.Add@LockFile", p.InstrPos(ci), "the cache records exactly the lock the server granted, after a successful answer", "the own-locks cache is written although the server did not (yet) confirm the lock, or with something other than the server's lock: "+path)
 			case "(*locking.Client).SearchLocksVerifiable":
 				// which half?
 				half := ""
@@ -367,7 +367,7 @@ func c16Cache(c *Ctx) {
 			}
 			passErr := errNilPassIdx(fn, unlockCall, 2)
 			g, path := Guarded(fn.Blocks[0], ci, passErr, nil)
-			c.Check(g && len(passErr) > 0, "R3", "cache.Remove@"+FnName(fn), p.InstrPos(ci), "an own lock is forgotten only after the server confirmed the unlock", "an own lock can be dropped from the cache although the server did not confirm the unlock: "+path)
+			c.Check(g && nonVacuous(passErr), "R3", "cache.Remove@"+FnName(fn), p.InstrPos(ci), "an own lock is forgotten only after the server confirmed the unlock", "an own lock can be dropped from the cache although the server did not confirm the unlock: "+path)
 		}
 	}
 	c.AtLeast("R3", "cache.Add sites", n, 2)
